@@ -362,6 +362,36 @@ fn run_case(c: &Case, p1: &mut Processor<G1>, p2: &mut Processor<G2>) -> Result<
     }
 }
 
+/// The same oracle on a graph processed through `GraphNode` (a nested graph used as one node of an
+/// outer graph): node 0 is declared as its input port but the outer graph feeds it nothing, so the
+/// nested graph must be processed exactly as by `Processor::process`.
+fn nested_case(c: &Case) -> Result<(), Bad> {
+    use dasp_graph::node::GraphNode;
+    let e = expect(c);
+    let b = build_graph(c);
+    let Built { g, ix, log, call } = b;
+    let gn: GraphNode<G1, ProbeNode> = GraphNode { processor: Processor::with_capacity(c.n), graph: g, input_nodes: vec![ix[0]], output_node: ix[c.out], node_type: std::marker::PhantomData };
+    let mut og: Graph<NodeData<GraphNode<G1, ProbeNode>>, ()> = Graph::with_capacity(1, 0);
+    let o = og.add_node(NodeData::new1(gn));
+    let mut p = Processor::<Graph<NodeData<GraphNode<G1, ProbeNode>>, ()>>::with_capacity(1);
+    for k in 1..=2u32 {
+        *call.borrow_mut() = k;
+        log.borrow_mut().clear();
+        if let Err(pn) = catch(|| p.process(&mut og, o)) {
+            return Err(("graph.panic".into(), format!("nested in a GraphNode: process panicked: {pn}")));
+        }
+        let inner = &og[o].node.graph;
+        let ptrs: Vec<(usize, usize)> = ix.iter().map(|&i| (inner[i].buffers.as_ptr() as usize, inner[i].buffers.len())).collect();
+        let out_val = inner[ix[c.out]].buffers[0][0];
+        let lg = log.borrow().clone();
+        check_call(c, &e, &lg, &ptrs, out_val, k).map_err(|(key, m)| (key, format!("nested in a GraphNode (node 0 declared as an unconnected input port): {m}")))?;
+        if og[o].buffers[0][0] != out_val {
+            return Err(("graph.nested".into(), format!("nested in a GraphNode: the outer node's buffer holds {}, the inner output node's {out_val}", og[o].buffers[0][0])));
+        }
+    }
+    Ok(())
+}
+
 /// Run `c` on fresh processors that have first processed `hist` (results of the history ignored):
 /// the property quantifies over repeated process calls on the same processor, so a violation may
 /// need what the processor did before.
@@ -570,6 +600,11 @@ fn main() {
             let _guard_scope = guard::scoped(&v.to_string());
             ctx.finish_replay(bufcount_case(&cs).map(|e| e.1));
         }
+        if v["nested"] == true {
+            let c = Case::from_json(&v).unwrap_or_else(|| std::process::exit(2));
+            let _guard_scope = guard::scoped(&v.to_string());
+            ctx.finish_replay(nested_case(&c).err().map(|e| format!("{}: {}", e.0, e.1)));
+        }
         let c = Case::from_json(&v).unwrap_or_else(|| {
             eprintln!("bad C09 case");
             std::process::exit(2)
@@ -578,7 +613,7 @@ fn main() {
         let hist: Vec<Case> = v["history"].as_array().map(|a| a.iter().filter_map(Case::from_json).collect()).unwrap_or_default();
         ctx.finish_replay(run_with_history(&hist, &c));
     }
-    ctx.rule("every directed multigraph on n<=3 nodes with multiplicity 0..2 per ordered pair (self pairs included), every digraph with loops on 4 nodes (thorough: every loop-free digraph on 5 nodes) ; every edge insertion order (sequences of up to 6 / 5 / 4 edges over all ordered pairs of 2 / 3 / 4 nodes, parallel edges need not be adjacent) x every output node x container in {Graph, StableGraph, StableGraph with vacancies before/between/after/all (dummy nodes wired in and removed)} x 2 consecutive process calls (60 for the scale-probe graphs) on a processor reused across a whole chunk of the enumeration (256 graphs x outputs x containers; a violation's replay artefact carries the shortest suffix of that history with which it reproduces on a fresh processor); instrumented nodes log (node, call, own buffer ptr, per input ptr/len/value/call#); oracle: independent reverse reachability, multiset of in-edges by buffer identity, no self-alias, topological order and functional evaluation when the upstream subgraph is acyclic, sources()/sinks() == existing nodes without in/out edges; plus scale probes: nodes with 0, 1, 2, 255, 256, 257 and 1000 output buffers in every combination on a 3-node graph; 12 structured families (chains, stars, rings, complete DAG / digraph, tree, double edges, ...) on 5..=9 nodes; 8 structured families (chain, reversed chain, stars, ring, binary tree, bidirectional chain, chain with a fan-out from node 0) on 33, 64, 255, 256, 257 nodes (thorough: also 31, 32, 100, 300) x output node in {0, 1, n/2, n-2, n-1} x {Graph, StableGraph}, 60 calls each; chains and stars on 65535, 65536, 65537 nodes (Graph, and a StableGraph chain with its first slot vacant) under a linear-time form of the same oracle, 2 calls each; non-trivial = at least one edge, distinct by (graph, output, container)");
+    ctx.rule("every directed multigraph on n<=3 nodes with multiplicity 0..2 per ordered pair (self pairs included), every digraph with loops on 4 nodes (thorough: every loop-free digraph on 5 nodes) ; every edge insertion order (sequences of up to 6 / 5 / 4 edges over all ordered pairs of 2 / 3 / 4 nodes, parallel edges need not be adjacent) x every output node x container in {Graph, StableGraph, StableGraph with vacancies before/between/after/all (dummy nodes wired in and removed)} x 2 consecutive process calls (60 for the scale-probe graphs); every multigraph on <=3 nodes also nested in a GraphNode of a one-node outer graph (node 0 declared as an input port that nothing feeds), same oracle on the inner log on a processor reused across a whole chunk of the enumeration (256 graphs x outputs x containers; a violation's replay artefact carries the shortest suffix of that history with which it reproduces on a fresh processor); instrumented nodes log (node, call, own buffer ptr, per input ptr/len/value/call#); oracle: independent reverse reachability, multiset of in-edges by buffer identity, no self-alias, topological order and functional evaluation when the upstream subgraph is acyclic, sources()/sinks() == existing nodes without in/out edges; plus scale probes: nodes with 0, 1, 2, 255, 256, 257 and 1000 output buffers in every combination on a 3-node graph; 12 structured families (chains, stars, rings, complete DAG / digraph, tree, double edges, ...) on 5..=9 nodes; 8 structured families (chain, reversed chain, stars, ring, binary tree, bidirectional chain, chain with a fan-out from node 0) on 33, 64, 255, 256, 257 nodes (thorough: also 31, 32, 100, 300) x output node in {0, 1, n/2, n-2, n-1} x {Graph, StableGraph}, 60 calls each; chains and stars on 65535, 65536, 65537 nodes (Graph, and a StableGraph chain with its first slot vacant) under a linear-time form of the same oracle, 2 calls each; non-trivial = at least one edge, distinct by (graph, output, container)");
     // enumerate
     // (node count, multiplicity matrix, explicit edge insertion order if any)
     let mut graphs: Vec<(usize, Vec<u8>, Option<Vec<(usize, usize)>>)> = Vec::new();
@@ -679,6 +714,15 @@ fn main() {
                     let _guard_scope = guard::scoped(&cj.to_string());
                     evals.fetch_add(1, Relaxed);
                     calls.fetch_add(2, Relaxed);
+                    if cont == 0 && *n <= 3 && order.is_none() {
+                        evals.fetch_add(1, Relaxed);
+                        calls.fetch_add(2, Relaxed);
+                        if let Err((k, msg)) = nested_case(&c) {
+                            let mut cj = c.to_json();
+                            cj["nested"] = json!(true);
+                            ctx.violation(&k, cj, msg.clone(), Some(&|| nested_case(&c).err().map(|_| msg.clone())));
+                        }
+                    }
                     match run_case(&c, &mut p1, &mut p2) {
                         Ok(()) => {
                             if m.iter().any(|&x| x > 0) && fps.len() < 4096 {
